@@ -2,7 +2,7 @@
 import re
 
 from engine import rule, AnchorLost
-from model import enum_edge, Super, PathSens, fn_of, trace, strace, is_place, site, const_value, uses_of_local
+from model import enum_edge, Super, PathSens, fn_of, trace, strace, is_place, site, const_value, uses_of_local, kind_tests
 import common
 import vocab
 
@@ -90,31 +90,12 @@ def _err_type(ty):
 
 
 def _kind_discriminators(body, base_local, variant_names):
-    """Edges meaning `kind() != <variant>` for io::Error payloads reachable from base_local:
-    returns list of (src_bb, label, dst_bb, compared_variant)."""
+    """Edges meaning `kind() != <variant>` for io::Error payloads reachable from base_local, whatever the
+    spelling of the test (`!=`, `==`, `matches!`, `match`): returns list of (src_bb, label, dst_bb, variant)."""
     edges = []
-    for bb, t in body.calls():
-        f = fn_of(t) or {}
-        if f.get("trait") != "std::cmp::PartialEq" or "ErrorKind" not in f.get("self_ty", ""):
-            continue
-        a0 = trace(body, t["args"][0])
-        a1 = trace(body, t["args"][1])
-        kc = None
-        cv = None
-        for a in (a0, a1):
-            if a.origin and a.origin[0] == "call" and (fn_of(a.origin[2]) or {}).get("def") == "std::io::Error::kind":
-                kc = a.origin[2]
-            elif a.origin and a.origin[0] == "const":
-                cv = a.origin[1].get("ref_variant") or a.origin[1].get("variant")
-            elif a.origin and a.origin[0] == "agg":
-                cv = a.origin[1]["rv"].get("variant")
-        if kc is None or cv is None:
-            continue
-        p = trace(body, kc["args"][0])
-        root = None
-        if p.origin and p.origin[0] in ("call", "multi", "arg"):
-            root = p
-        base_ok = False
+    sup0 = Super(body.crate, body, depth=0)
+    for kt in kind_tests(sup0):
+        kc = kt.kind_call
         # the error inspected must be (a payload of) base_local
         locs = set()
         for tr in _expand_refs(body, kc["args"][0]):
@@ -122,19 +103,14 @@ def _kind_discriminators(body, base_local, variant_names):
                 locs.add(tr.origin[1])
             if tr.origin and tr.origin[0] == "call":
                 locs.add(tr.origin[2]["dest"]["l"])
-        base_ok = base_local in locs
-        if not base_ok:
+        if base_local not in locs:
             continue
-        sw = body.blocks[t["target"]]["term"]
-        if sw["k"] != "switch":
-            continue
-        zero = [x for v, x in sw["targets"] if v == 0]
-        if not zero:
-            continue
-        if f["name"] == "ne":
-            edges.append((t["target"], "otherwise", sw["otherwise"], cv))
-        else:
-            edges.append((t["target"], 0, zero[0], cv))
+        named = kt.named()
+        for lab, dst, ks in kt.edges:
+            if ks is None:
+                # taken for every kind not named by the test
+                for cv in named:
+                    edges.append((kt.node[1], lab, dst[1], cv))
     return edges
 
 
@@ -177,6 +153,16 @@ def _assume_parser_failure(ctx, fmt, trial):
                     ks.append(tr.origin[1]["rv"].get("variant"))
             if any(k_ in NON_IO_KINDS for k_ in ks):
                 ps.assume[n] = (("const", 1 if f["name"] == "eq" else 0), None)
+    # the same assumption for tests spelled as a match on the kind: kind() yields the non-I/O kind it names
+    kadt = lib.adts.get("std::io::ErrorKind")
+    for kt in kind_tests(sup):
+        if kt.form != "discr" or not kadt:
+            continue
+        hit = [k_ for k_ in kt.named() if k_ in NON_IO_KINDS]
+        if hit:
+            idx = [v["idx"] for v in kadt["variants"] if v["name"] == hit[0]]
+            if idx:
+                ps.assume[kt.kind_node] = (("var", idx[0]), None)
     entry_states = ps.explore([(sup.entry, {})])
     for pn, pt, forced in parser_calls:
         ps.assume[pn] = forced
@@ -461,6 +447,16 @@ def r09_5(ctx):
                             e = enum_edge(b, sb, 0)
                             if e and b.edge_dominates(e[0], e[1], e[2], bi):
                                 ok = True
+        if not ok and b.raw["def_kind"] == "Closure" and b.raw.get("parent") in lib.by_id:
+            # `detect(..)?.ok_or_else(|| TEXT.into())`: the closure holding the text runs only on None
+            pb = lib.by_id[b.raw["parent"]]
+            pcalls = [t for _, t in pb.calls() if ((fn_of(t) or {}).get("resolved") or (fn_of(t) or {}).get("def")) == det.id]
+            for _, pt in pb.calls():
+                pf = fn_of(pt) or {}
+                if b.id in pf.get("closures", []) and pf.get("def") == "std::option::Option::<T>::ok_or_else" and pcalls:
+                    tr = trace(pb, pt["args"][0])
+                    if tr.origin and tr.origin[0] == "call" and tr.origin[2] is pcalls[0] and any(st[0] == "downcast" and st[1] in ("Continue", "Ok") for st in tr.steps):
+                        ok = True
         ctx.ob("message-on-none-arm", ok, site(b, bi), "the error is built only when detection returned None" if ok else "the 'unable to detect' error is not tied to detection returning None")
 
 
@@ -604,6 +600,92 @@ def r09_9(ctx):
     ctx.ob("arm-specific-give-ups", True, "lib", f"{n_sites} arm-specific early answer(s) classified", trivial=True)
 
 
+def _error_flow(lib, b, start, is_result, depth=0):
+    """Follow the error held by local `start` of body `b` (the poll's Result when is_result, else the error
+    value itself) to every use: returns (problems, wrapped) where wrapped counts io::Error::new(InvalidData, e)
+    sites and problems lists (bb, reason) for every way the error can leave unwrapped. A same-crate helper the
+    error is handed to is followed into its body."""
+    res = start if is_result else None
+    problems = []
+    wrapped = 0
+    work = [start]
+    seen = set()
+    while work:
+        l = work.pop()
+        if l in seen:
+            continue
+        seen.add(l)
+        for ub, ui, how in uses_of_local(b, l):
+            if how == "drop":
+                continue
+            if isinstance(how, tuple) and how[0] == "callarg":
+                ut = b.blocks[ub]["term"]
+                uf = fn_of(ut) or {}
+                d = uf.get("def", "")
+                if d.startswith("std::io::Error::new"):
+                    kind = trace(b, ut["args"][0])
+                    kv = None
+                    if kind.origin and kind.origin[0] == "agg":
+                        kv = kind.origin[1]["rv"].get("variant")
+                    elif kind.origin and kind.origin[0] == "const":
+                        kv = kind.origin[1].get("variant") or kind.origin[1].get("ref_variant")
+                    if kv == "InvalidData":
+                        wrapped += 1
+                    else:
+                        problems.append((ub, f"wrapped with ErrorKind::{kv}"))
+                elif d == "std::result::Result::<T, E>::map_err" and l == res:
+                    okc = False
+                    for c in uf.get("closures", []):
+                        cb = lib.by_id.get(c)
+                        for cbb, ct in (cb.calls() if cb else []):
+                            if (fn_of(ct) or {}).get("def", "").startswith("std::io::Error::new"):
+                                kind = trace(cb, ct["args"][0])
+                                kv = kind.origin[1]["rv"].get("variant") if kind.origin and kind.origin[0] == "agg" else ((kind.origin[1].get("variant") or kind.origin[1].get("ref_variant")) if kind.origin and kind.origin[0] == "const" else None)
+                                payload = trace(cb, ct["args"][1])
+                                if kv == "InvalidData" and payload.origin and payload.origin[0] == "arg" and payload.origin[1] == 2:
+                                    okc = True
+                    if okc:
+                        wrapped += 1
+                    else:
+                        problems.append((ub, "map_err closure does not wrap the error as InvalidData"))
+                elif d == "std::ops::Try::branch" and l == res:
+                    problems.append((ub, "`?` propagates the parser/encoder error unwrapped"))
+                elif l != res and (d.startswith("std::convert::Into") or d.startswith("std::convert::From") or d.startswith("std::boxed::Box")):
+                    if not ut["dest"]["pr"]:
+                        work.append(ut["dest"]["l"])
+                elif l != res:
+                    callee = lib.by_id.get(uf.get("resolved") or uf.get("def"))
+                    pos = [i for i, a_ in enumerate(ut["args"]) if is_place(a_) and a_["p"]["l"] == l and not a_["p"]["pr"]]
+                    if callee is not None and uf.get("local") and len(pos) == 1 and depth < 3:
+                        sp, sw_ = _error_flow(lib, callee, pos[0] + 1, False, depth + 1)
+                        problems.extend((ub, f"in {callee.name}: {why}") for _, why in sp)
+                        wrapped += sw_
+                    else:
+                        problems.append((ub, f"error handed to {d}"))
+            elif how == "stmt":
+                st = b.blocks[ub]["stmts"][ui]
+                rv = st["rv"]
+                if rv["k"] == "discr":
+                    continue
+                if rv["k"] == "use" and is_place(rv["op"]) and rv["op"]["p"]["l"] == l:
+                    proj = [e for e in rv["op"]["p"]["pr"]]
+                    if l == res and not any(e["k"] == "downcast" and e["variant"] == "Err" for e in proj):
+                        # Ok payload / whole-value move
+                        if proj:
+                            continue
+                    if not st["p"]["pr"] and st["p"]["l"] != 0:
+                        work.append(st["p"]["l"])
+                    else:
+                        problems.append((ub, "error stored or returned without wrapping"))
+                elif rv["k"] == "aggregate" and l != res:
+                    problems.append((ub, f"error placed in {rv.get('variant') or rv.get('agg')}(..) without the InvalidData wrap"))
+                elif rv["k"] in ("ref",) and l != res:
+                    work.append(st["p"]["l"]) if not st["p"]["pr"] else None
+            elif how == "ret" and l != res:
+                problems.append((ub, "error returned without wrapping"))
+    return problems, wrapped
+
+
 @rule("R09.7", 3, "every error leaving the YAML chunker's parser loop is wrapped as ErrorKind::InvalidData (the YAML trial skips exactly that kind): no raw propagation of the parser/encoder error", ["C09", "C12"])
 def r09_7(ctx):
     lib = ctx.lib
@@ -622,77 +704,7 @@ def r09_7(ctx):
             if t["dest"]["pr"]:
                 continue
             n_calls += 1
-            res = t["dest"]["l"]
-            problems = []
-            wrapped = 0
-            work = [res]
-            seen = set()
-            while work:
-                l = work.pop()
-                if l in seen:
-                    continue
-                seen.add(l)
-                for ub, ui, how in uses_of_local(b, l):
-                    if how == "drop":
-                        continue
-                    if isinstance(how, tuple) and how[0] == "callarg":
-                        ut = b.blocks[ub]["term"]
-                        uf = fn_of(ut) or {}
-                        d = uf.get("def", "")
-                        if d.startswith("std::io::Error::new"):
-                            kind = trace(b, ut["args"][0])
-                            kv = None
-                            if kind.origin and kind.origin[0] == "agg":
-                                kv = kind.origin[1]["rv"].get("variant")
-                            elif kind.origin and kind.origin[0] == "const":
-                                kv = kind.origin[1].get("variant") or kind.origin[1].get("ref_variant")
-                            if kv == "InvalidData":
-                                wrapped += 1
-                            else:
-                                problems.append((ub, f"wrapped with ErrorKind::{kv}"))
-                        elif d == "std::result::Result::<T, E>::map_err" and l == res:
-                            okc = False
-                            for c in uf.get("closures", []):
-                                cb = lib.by_id.get(c)
-                                for cbb, ct in (cb.calls() if cb else []):
-                                    if (fn_of(ct) or {}).get("def", "").startswith("std::io::Error::new"):
-                                        kind = trace(cb, ct["args"][0])
-                                        kv = kind.origin[1]["rv"].get("variant") if kind.origin and kind.origin[0] == "agg" else ((kind.origin[1].get("variant") or kind.origin[1].get("ref_variant")) if kind.origin and kind.origin[0] == "const" else None)
-                                        payload = trace(cb, ct["args"][1])
-                                        if kv == "InvalidData" and payload.origin and payload.origin[0] == "arg" and payload.origin[1] == 2:
-                                            okc = True
-                            if okc:
-                                wrapped += 1
-                            else:
-                                problems.append((ub, "map_err closure does not wrap the error as InvalidData"))
-                        elif d == "std::ops::Try::branch" and l == res:
-                            problems.append((ub, "`?` propagates the parser/encoder error unwrapped"))
-                        elif l != res and (d.startswith("std::convert::Into") or d.startswith("std::convert::From") or d.startswith("std::boxed::Box")):
-                            if not ut["dest"]["pr"]:
-                                work.append(ut["dest"]["l"])
-                        elif l != res:
-                            problems.append((ub, f"error handed to {d}"))
-                    elif how == "stmt":
-                        st = b.blocks[ub]["stmts"][ui]
-                        rv = st["rv"]
-                        if rv["k"] == "discr":
-                            continue
-                        if rv["k"] == "use" and is_place(rv["op"]) and rv["op"]["p"]["l"] == l:
-                            proj = [e for e in rv["op"]["p"]["pr"]]
-                            if l == res and not any(e["k"] == "downcast" and e["variant"] == "Err" for e in proj):
-                                # Ok payload / whole-value move
-                                if proj:
-                                    continue
-                            if not st["p"]["pr"] and st["p"]["l"] != 0:
-                                work.append(st["p"]["l"])
-                            else:
-                                problems.append((ub, "error stored or returned without wrapping"))
-                        elif rv["k"] == "aggregate" and l != res:
-                            problems.append((ub, f"error placed in {rv.get('variant') or rv.get('agg')}(..) without the InvalidData wrap"))
-                        elif rv["k"] in ("ref",) and l != res:
-                            work.append(st["p"]["l"]) if not st["p"]["pr"] else None
-                    elif how == "ret" and l != res:
-                        problems.append((ub, "error returned without wrapping"))
+            problems, wrapped = _error_flow(lib, b, t["dest"]["l"], True)
             ok = not problems and wrapped >= 1
             det = f"the poll's error reaches the caller only inside io::Error::new(InvalidData, ..) ({wrapped} wrap site(s))" if ok else ("; ".join(p_[1] for p_ in problems) or "no InvalidData wrap of the poll's error found")
             ctx.ob(f"poll-error-wrapped:{b.name}", ok, site(b, problems[0][0] if problems else bb), det)
@@ -700,13 +712,8 @@ def r09_7(ctx):
     # the trial's discriminator is that very kind
     yt = common.trial_functions(ctx.facts)["yaml"]
     kinds = []
-    for sup_n, bx, t in Super(lib, yt, depth=2).calls():
-        f = fn_of(t) or {}
-        if f.get("trait") == "std::cmp::PartialEq" and "ErrorKind" in f.get("self_ty", ""):
-            for a in t["args"]:
-                tr = trace(bx, a)
-                if tr.origin and tr.origin[0] == "const":
-                    kinds.append(tr.origin[1].get("ref_variant") or tr.origin[1].get("variant"))
+    for kt in kind_tests(Super(lib, yt, depth=2)):
+        kinds.extend(kt.named())
     ctx.ob("trial-skips-InvalidData", kinds == ["InvalidData"], site(yt), f"the YAML trial discriminates on ErrorKind {kinds}")
 
 
